@@ -22,6 +22,7 @@ func (fr *Frame) execBlock(b *ssa.BasicBlock, st *State, c string, in map[*ssa.B
 		if c == "false" {
 			return c
 		}
+		fr.pointAsserts(ins, b, st, c)
 		switch x := ins.(type) {
 		case *ssa.Phi, *ssa.DebugRef:
 			// handled at merge
@@ -1048,4 +1049,51 @@ func canonBox(t types.Type) string {
 		return "bxI"
 	}
 	return ""
+}
+
+// pointAsserts: "at +N assert e" clauses of the function under verification are proved, then assumed, just
+// before the first instruction of that source line executes (locals denote their values at that point)
+func (fr *Frame) pointAsserts(ins ssa.Instruction, b *ssa.BasicBlock, st *State, c string) {
+	if !fr.top || fr.contract == nil || len(fr.contract.PointAsserts) == 0 || !ins.Pos().IsValid() {
+		return
+	}
+	if _, isDbg := ins.(*ssa.DebugRef); isDbg {
+		return
+	}
+	fset := fr.fx.E.P.Fset
+	line := fset.Position(ins.Pos()).Line - fset.Position(fr.fn.Pos()).Line
+	cls := fr.contract.PointAsserts[line]
+	if len(cls) == 0 || fr.pointDone[line] {
+		return
+	}
+	if fr.pointDone == nil {
+		fr.pointDone = map[int]bool{}
+	}
+	fr.pointDone[line] = true
+	// kept summaries are evaluated first, proved in the current segment, and re-asserted permanently after a cut
+	var kept []string
+	cut := false
+	for _, cl := range cls {
+		if cl.Kind == "cut" {
+			cut = true
+			continue
+		}
+		fr.evalBlock = b
+		t := fr.evalClause(cl, nil, fr.entry, st)
+		fr.evalBlock = nil
+		fr.fx.obligeNamed(fmt.Sprintf("%s#assert@+%d", fr.key, line), "assert", cl.Tags, c, t, cl.Src, cl.Text)
+		fr.fx.assert(implies(c, t))
+		if cl.Kind == "pkeep" {
+			kept = append(kept, implies(c, t))
+		}
+	}
+	if cut {
+		fr.fx.curSeg++
+		fr.fx.asserted = nil
+	}
+	fr.fx.permNext = true
+	for _, k := range kept {
+		fr.fx.assert(k)
+	}
+	fr.fx.permNext = false
 }
